@@ -6,6 +6,11 @@ VERIF = os.path.dirname(os.path.dirname(os.path.abspath(__file__)))
 ALL = ["C%02d" % i for i in range(1, 21)]
 
 CLAIMED = {
+ "C02": dict(
+   technique="TLA+ spec RuleScan.tla: kernel route() automaton (KScan: route_state bits, DNS_QUERY hand-over, is_wan process-name gating) checked by TLC to equal the first-match semantics modulo IntendedDiff; generated programs installed by the production builders into real kernel maps and every packet executed by the real tc programs (BPF_PROG_TEST_RUN) on LAN ingress and WAN egress",
+   text="TLC checks in every generated program state that the kernel scan automaton over the lowered match-set array decides as the reference semantics except for the intended DNS hand-over. A sample of the programs is compiled from config text, written into real kernel maps by BuildKernspace (LPM ring slots, routing_map, routing_meta_map, domain bitmaps), and each packet is run through the real tproxy_lan_ingress_l2 and tproxy_wan_egress_l2 programs in the kernel; the decision is read back with the production RetrieveRoutingResult and compared with the spec and with RoutingMatcher.Match.",
+   note="Trusted: TLC, kernel BPF_PROG_TEST_RUN. Process identity on WAN egress is injected through cookie_pid_map for the cookies of the test-run dummy sockets (window + last_seen confirmation). Outbound ids {0,1,2,3,251}, marks {0,1,0xffffffff}. Sampled 1/9 (quick) or 1/2 (thorough) of the generated programs.",
+   design="§3 C02"),
  "C01": dict(
    technique="TLA+ spec RuleScan.tla (first-match reference semantics Decide + lowered match-set array + userspace scan machine) model-checked with TLC; TLC-generated programs rendered to dae config text and replayed through parser, config.New, builder and ControlPlane.Route",
    text="TLC enumerates routing programs (every single-condition rule over the full value universe of the ten condition functions, every 2-rule and 2-condition program over a reduced universe, deeper programs by simulation) and checks in every state that the sentinel scan over the lowered match-set array refines the first-match semantics for every packet of the program's boundary packet set. Every generated program is compiled from configuration text by the production pipeline and ControlPlane.Route is compared, packet by packet, with the specification's decision (outbound, mark, must).",
